@@ -73,18 +73,371 @@ theorem countInterleavings_eq (v need : Nat) (h : v ≤ need) :
   simp only [multi, List.sum_cons, List.sum_nil, Nat.add_zero, Nat.choose_self, Nat.mul_one]
   rw [show need - v + v = need by omega, Nat.choose_symm h]
 
+/-! ### finite sums `Σ_{i0 ≤ k < i0 + n} f k` -/
+
+def tsum (f : Nat → Nat) : Nat → Nat → Nat
+  | _, 0 => 0
+  | i0, n + 1 => f i0 + tsum f (i0 + 1) n
+
+theorem tsum_congr {f g : Nat → Nat} (i0 n : Nat)
+    (h : ∀ k, i0 ≤ k → k < i0 + n → f k = g k) : tsum f i0 n = tsum g i0 n := by
+  induction n generalizing i0 with
+  | zero => rfl
+  | succ n ih =>
+    simp only [tsum]
+    rw [h i0 (Nat.le_refl _) (by omega), ih (i0 + 1) (fun k h1 h2 => h k (by omega) (by omega))]
+
+theorem tsum_shift (f : Nat → Nat) (i0 n : Nat) :
+    tsum f (i0 + 1) n = tsum (fun k => f (k + 1)) i0 n := by
+  induction n generalizing i0 with
+  | zero => rfl
+  | succ n ih => simp only [tsum, ih]
+
+theorem tsum_mul (a : Nat) (f : Nat → Nat) (i0 n : Nat) :
+    tsum (fun k => a * f k) i0 n = a * tsum f i0 n := by
+  induction n generalizing i0 with
+  | zero => rfl
+  | succ n ih => simp only [tsum, ih, Nat.mul_add]
+
+theorem tsum_append (f : Nat → Nat) (i0 n m : Nat) :
+    tsum f i0 (n + m) = tsum f i0 n + tsum f (i0 + n) m := by
+  induction n generalizing i0 with
+  | zero => simp [tsum]
+  | succ n ih =>
+    rw [show n + 1 + m = (n + m) + 1 by omega]
+    simp only [tsum, ih]
+    rw [show i0 + 1 + n = i0 + (n + 1) by omega]
+    omega
+
+theorem tsum_zero (i0 n : Nat) : tsum (fun _ => 0) i0 n = 0 := by
+  induction n generalizing i0 with
+  | zero => rfl
+  | succ n ih => simp only [tsum, ih]
+
+theorem tsum_succ_last (f : Nat → Nat) (i0 n : Nat) :
+    tsum f i0 (n + 1) = tsum f i0 n + f (i0 + n) := by
+  rw [tsum_append]; simp [tsum]
+
+theorem tsum_le (f : Nat → Nat) (i0 n m : Nat) (h : n ≤ m) : tsum f i0 n ≤ tsum f i0 m := by
+  obtain ⟨d, rfl⟩ := Nat.exists_eq_add_of_le h
+  rw [tsum_append]; omega
+
+/-! ### `decAt` -/
+
+theorem decAt_length (cs : List Nat) (i : Nat) : (decAt cs i).length = cs.length := by
+  induction cs generalizing i with
+  | nil => rfl
+  | cons c cs ih => cases i <;> simp [decAt, ih]
+
+theorem decAt_sum (cs : List Nat) (i : Nat) (h : 0 < cs.getD i 0) :
+    (decAt cs i).sum + 1 = cs.sum := by
+  induction cs generalizing i with
+  | nil => simp at h
+  | cons c cs ih =>
+    cases i with
+    | zero => simp at h; simp [decAt]; omega
+    | succ i =>
+      simp at h
+      have := ih i (by simpa using h)
+      simp [decAt]; omega
+
+theorem decAt_getD (cs : List Nat) (i j : Nat) :
+    (decAt cs i).getD j 0 = if j = i then cs.getD i 0 - 1 else cs.getD j 0 := by
+  induction cs generalizing i j with
+  | nil => simp [decAt]
+  | cons c cs ih =>
+    cases i with
+    | zero => cases j <;> simp [decAt]
+    | succ i =>
+      cases j with
+      | zero => simp [decAt]
+      | succ j => simpa [decAt] using ih i j
+
+theorem getD_le_sum (cs : List Nat) (i : Nat) : cs.getD i 0 ≤ cs.sum := by
+  induction cs generalizing i with
+  | nil => simp
+  | cons c cs ih =>
+    cases i with
+    | zero => simp
+    | succ i => have := ih i; simp only [List.getD_cons_succ, List.sum_cons]; omega
+
+theorem sum_eq_zero_of_getD (cs : List Nat) (h : ∀ i, i < cs.length → cs.getD i 0 = 0) :
+    cs.sum = 0 := by
+  induction cs with
+  | nil => rfl
+  | cons c cs ih =>
+    have h0 := h 0 (by simp)
+    have := ih (fun i hi => by simpa using h (i + 1) (by simpa using hi))
+    simp at h0
+    simp [h0, this]
+
+/-! ### the multinomial recurrence -/
+
+/-- number of arrangements that start with `k` -/
+def term (cs : List Nat) (k : Nat) : Nat :=
+  if 0 < cs.getD k 0 then multi (decAt cs k) else 0
+
+theorem term_cons_succ (c : Nat) (cs : List Nat) (k : Nat) :
+    term (c :: cs) (k + 1) = Nat.choose (c + (cs.sum - 1)) c * term cs k := by
+  unfold term
+  simp only [List.getD_cons_succ]
+  split
+  · next h =>
+    have := decAt_sum cs k h
+    simp only [decAt, multi]
+    rw [show (decAt cs k).sum = cs.sum - 1 by omega]
+  · simp
+
+theorem multi_rec (cs : List Nat) (h : 0 < cs.sum) :
+    multi cs = tsum (term cs) 0 cs.length := by
+  induction cs with
+  | nil => simp at h
+  | cons c cs ih =>
+    simp only [List.length_cons, tsum]
+    rw [tsum_shift, tsum_congr (g := fun k => Nat.choose (c + (cs.sum - 1)) c * term cs k) 0 _
+      (fun k _ _ => term_cons_succ c cs k), tsum_mul]
+    simp only [List.sum_cons] at h
+    have h0 : term (c :: cs) 0 = if 0 < c then Nat.choose (c - 1 + cs.sum) (c - 1) * multi cs else 0 := by
+      simp [term, decAt, multi]
+    rw [h0]
+    simp only [multi]
+    rcases Nat.eq_zero_or_pos cs.sum with hs | hs
+    · have hc : 0 < c := by omega
+      have hm := multi_of_sum_zero cs hs
+      obtain ⟨c', rfl⟩ : ∃ c', c = c' + 1 := ⟨c - 1, by omega⟩
+      have hz : tsum (term cs) 0 cs.length = 0 := by
+        rw [tsum_congr (g := fun _ => 0) 0 _ (fun k _ _ => by
+          have := getD_le_sum cs k
+          simp only [term]; rw [if_neg (by omega)])]
+        exact tsum_zero _ _
+      simp [hs, hm, hz]
+    · rw [← ih hs]
+      rcases Nat.eq_zero_or_pos c with hc | hc
+      · subst hc; simp
+      · obtain ⟨c', rfl⟩ : ∃ c', c = c' + 1 := ⟨c - 1, by omega⟩
+        obtain ⟨s', hs'⟩ : ∃ s', cs.sum = s' + 1 := ⟨cs.sum - 1, by omega⟩
+        rw [hs']
+        simp only [Nat.zero_lt_succ, if_true, Nat.add_sub_cancel]
+        rw [show c' + 1 + (s' + 1) = (c' + 1 + s') + 1 by omega, Nat.choose_succ_succ,
+          show c' + (s' + 1) = c' + 1 + s' by omega, Nat.add_mul]
+
+theorem tsum_find (f : Nat → Nat) (i0 n idx : Nat) (h : idx < tsum f i0 n) :
+    ∃ i, i0 ≤ i ∧ i < i0 + n ∧ tsum f i0 (i - i0) ≤ idx ∧ idx < tsum f i0 (i - i0) + f i := by
+  induction n with
+  | zero => simp [tsum] at h
+  | succ n ih =>
+    rw [tsum_succ_last] at h
+    by_cases h' : idx < tsum f i0 n
+    · obtain ⟨i, h1, h2, h3, h4⟩ := ih h'
+      exact ⟨i, h1, by omega, h3, h4⟩
+    · refine ⟨i0 + n, by omega, by omega, ?_, ?_⟩ <;> rw [Nat.add_sub_cancel_left] <;> omega
+
+/-! ### `pickNext` -/
+
+theorem pickNext_some_iff (cs : List Nat) (q : Nat) (hq : q ≤ cs.length)
+    (fuel i0 idx i idx' : Nat) (hf : q - i0 < fuel) :
+    pickNext cs q fuel i0 idx = some (i, idx') ↔
+      i0 ≤ i ∧ i < q ∧ 0 < cs.getD i 0 ∧ idx' < term cs i ∧
+        idx = tsum (term cs) i0 (i - i0) + idx' := by
+  induction fuel generalizing i0 idx with
+  | zero => omega
+  | succ fuel ih =>
+    simp only [pickNext]
+    by_cases hi : i0 < q
+    · have hlt : i0 < cs.length := by omega
+      rw [if_pos hi]
+      have hget : cs[i0]? = some cs[i0] := List.getElem?_eq_getElem hlt
+      have hgd : cs.getD i0 0 = cs[i0] := by simp [List.getD, hget]
+      simp only [hget]
+      by_cases hc : cs[i0] > 0
+      · rw [if_pos hc]
+        have ht : term cs i0 = multi (decAt cs i0) := by unfold term; rw [if_pos (by omega)]
+        rw [countRemaining_eq_multi, ← ht]
+        by_cases hn : idx ≥ term cs i0
+        · rw [if_pos hn, ih (i0 + 1) _ (by omega)]
+          constructor
+          · rintro ⟨h1, h2, h3, h4, h5⟩
+            refine ⟨by omega, h2, h3, h4, ?_⟩
+            rw [show i - i0 = (i - (i0 + 1)) + 1 by omega, tsum]; omega
+          · rintro ⟨h1, h2, h3, h4, h5⟩
+            have hne : i ≠ i0 := by
+              rintro rfl; simp [tsum] at h5; omega
+            rw [show i - i0 = (i - (i0 + 1)) + 1 by omega, tsum] at h5
+            exact ⟨by omega, h2, h3, h4, by omega⟩
+        · rw [if_neg hn]
+          simp only [Option.some.injEq, Prod.mk.injEq]
+          constructor
+          · rintro ⟨rfl, rfl⟩
+            exact ⟨Nat.le_refl _, hi, by omega, by omega, by simp [tsum]⟩
+          · rintro ⟨h1, h2, h3, h4, h5⟩
+            by_cases hii : i = i0
+            · subst hii; simp [tsum] at h5; exact ⟨rfl, h5⟩
+            · rw [show i - i0 = (i - (i0 + 1)) + 1 by omega, tsum] at h5; omega
+      · rw [if_neg hc]
+        have ht : term cs i0 = 0 := by unfold term; rw [if_neg (by omega)]
+        rw [ih (i0 + 1) _ (by omega)]
+        constructor
+        · rintro ⟨h1, h2, h3, h4, h5⟩
+          refine ⟨by omega, h2, h3, h4, ?_⟩
+          rw [show i - i0 = (i - (i0 + 1)) + 1 by omega, tsum]; omega
+        · rintro ⟨h1, h2, h3, h4, h5⟩
+          have hne : i ≠ i0 := by
+            rintro rfl; omega
+          rw [show i - i0 = (i - (i0 + 1)) + 1 by omega, tsum] at h5
+          exact ⟨by omega, h2, h3, h4, by omega⟩
+    · rw [if_neg hi]
+      simp only [reduceCtorEq, false_iff]
+      omega
+
+theorem term_pos_getD (cs : List Nat) (i : Nat) (h : 0 < term cs i) : 0 < cs.getD i 0 := by
+  unfold term at h
+  split at h
+  · assumption
+  · omega
+
+theorem term_eq (cs : List Nat) (i : Nat) (h : 0 < cs.getD i 0) : term cs i = multi (decAt cs i) := by
+  unfold term; rw [if_pos h]
+
+theorem pickNext_exists (cs : List Nat) (idx : Nat) (hs : 0 < cs.sum) (h : idx < multi cs) :
+    ∃ i idx', pickNext cs cs.length (cs.length + 1) 0 idx = some (i, idx') ∧ i < cs.length ∧
+      0 < cs.getD i 0 ∧ idx' < multi (decAt cs i) ∧ idx = tsum (term cs) 0 i + idx' := by
+  rw [multi_rec cs hs] at h
+  obtain ⟨i, _, h2, h3, h4⟩ := tsum_find _ _ _ _ h
+  simp only [Nat.sub_zero, Nat.zero_add] at h2 h3 h4
+  have hpos : 0 < cs.getD i 0 := term_pos_getD cs i (by omega)
+  refine ⟨i, idx - tsum (term cs) 0 i, ?_, h2, hpos, ?_, by omega⟩
+  · rw [pickNext_some_iff cs cs.length (Nat.le_refl _) _ _ _ _ _ (by omega)]
+    exact ⟨Nat.zero_le _, h2, hpos, by omega, by simp only [Nat.sub_zero]; omega⟩
+  · rw [← term_eq cs i hpos]; omega
+
+theorem pickNext_complete (cs : List Nat) (i idx' : Nat) (hi : i < cs.length)
+    (hpos : 0 < cs.getD i 0) (h : idx' < multi (decAt cs i)) :
+    pickNext cs cs.length (cs.length + 1) 0 (tsum (term cs) 0 i + idx') = some (i, idx') := by
+  rw [pickNext_some_iff cs cs.length (Nat.le_refl _) _ _ _ _ _ (by omega)]
+  exact ⟨Nat.zero_le _, hi, hpos, by rw [term_eq cs i hpos]; exact h, by simp⟩
+
+theorem rank_lt (cs : List Nat) (i idx' : Nat) (hi : i < cs.length)
+    (hpos : 0 < cs.getD i 0) (h : idx' < multi (decAt cs i)) :
+    tsum (term cs) 0 i + idx' < multi cs := by
+  have hs : 0 < cs.sum := by have := getD_le_sum cs i; omega
+  rw [multi_rec cs hs]
+  have h1 := tsum_le (term cs) 0 (i + 1) cs.length (by omega)
+  rw [tsum_succ_last, Nat.zero_add, term_eq cs i hpos] at h1
+  omega
+
+/-! ### `constructWithCopies` -/
+
+theorem cwc_range (fill : Nat) : ∀ (cs : List Nat) (idx : Nat), cs.sum = fill → idx < multi cs →
+    ∃ w, constructWithCopies cs.length fill idx cs = .ok w ∧ IsMultisetPermutation cs w := by
+  induction fill with
+  | zero =>
+    intro cs idx hs _
+    refine ⟨[], rfl, by simp, ?_⟩
+    intro i _
+    have := getD_le_sum cs i
+    simp [-List.getD_eq_getElem?_getD]; omega
+  | succ fill ih =>
+    intro cs idx hs hidx
+    obtain ⟨i, idx', hp, hi, hci, hidx', _⟩ := pickNext_exists cs idx (by omega) hidx
+    have hsum := decAt_sum cs i hci
+    obtain ⟨r, hr, hmem, hcnt⟩ := ih (decAt cs i) idx' (by omega) hidx'
+    rw [decAt_length] at hr hmem hcnt
+    refine ⟨i :: r, ?_, ?_, ?_⟩
+    · simp only [constructWithCopies, hp, hr]
+    · intro x hx
+      rcases List.mem_cons.1 hx with rfl | hx
+      · exact hi
+      · exact hmem x hx
+    · intro j hj
+      rw [List.count_cons, hcnt j hj, decAt_getD]
+      by_cases hji : j = i
+      · subst hji; simp [-List.getD_eq_getElem?_getD]; omega
+      · have : ¬ i = j := fun h => hji h.symm
+        simp [hji, this, -List.getD_eq_getElem?_getD]
+
+theorem cwc_inj (fill : Nat) : ∀ (cs : List Nat) (i₁ i₂ : Nat), cs.sum = fill →
+    i₁ < multi cs → i₂ < multi cs →
+    constructWithCopies cs.length fill i₁ cs = constructWithCopies cs.length fill i₂ cs →
+    i₁ = i₂ := by
+  induction fill with
+  | zero =>
+    intro cs i₁ i₂ hs h₁ h₂ _
+    rw [multi_of_sum_zero cs hs] at h₁ h₂; omega
+  | succ fill ih =>
+    intro cs i₁ i₂ hs h₁ h₂ h
+    obtain ⟨a₁, b₁, hp₁, ha₁, hc₁, hb₁, he₁⟩ := pickNext_exists cs i₁ (by omega) h₁
+    obtain ⟨a₂, b₂, hp₂, ha₂, hc₂, hb₂, he₂⟩ := pickNext_exists cs i₂ (by omega) h₂
+    have hs₁ := decAt_sum cs a₁ hc₁
+    have hs₂ := decAt_sum cs a₂ hc₂
+    obtain ⟨r₁, hr₁, _⟩ := cwc_range fill (decAt cs a₁) b₁ (by omega) hb₁
+    obtain ⟨r₂, hr₂, _⟩ := cwc_range fill (decAt cs a₂) b₂ (by omega) hb₂
+    rw [decAt_length] at hr₁ hr₂
+    simp only [constructWithCopies, hp₁, hp₂, hr₁, hr₂, Except.ok.injEq, List.cons.injEq] at h
+    obtain ⟨rfl, rfl⟩ := h
+    have := ih (decAt cs a₁) b₁ b₂ (by omega) hb₁ hb₂ (by rw [decAt_length, hr₁, hr₂])
+    omega
+
+theorem cwc_surj (fill : Nat) : ∀ (cs : List Nat) (w : List Nat), cs.sum = fill →
+    IsMultisetPermutation cs w →
+    ∃ idx, idx < multi cs ∧ constructWithCopies cs.length fill idx cs = .ok w := by
+  induction fill with
+  | zero =>
+    intro cs w hs ⟨hmem, hcnt⟩
+    have hw : w = [] := by
+      cases w with
+      | nil => rfl
+      | cons x w =>
+        exfalso
+        have hx := hmem x (by simp)
+        have h1 := hcnt x hx
+        have h2 := getD_le_sum cs x
+        simp [-List.getD_eq_getElem?_getD] at h1; omega
+    subst hw
+    exact ⟨0, by rw [multi_of_sum_zero cs hs]; omega, rfl⟩
+  | succ fill ih =>
+    intro cs w hs ⟨hmem, hcnt⟩
+    cases w with
+    | nil =>
+      exfalso
+      have := sum_eq_zero_of_getD cs (fun i hi => by have := hcnt i hi; simpa [-List.getD_eq_getElem?_getD] using this.symm)
+      omega
+    | cons i w =>
+      have hi : i < cs.length := hmem i (by simp)
+      have hci : cs.getD i 0 = w.count i + 1 := by
+        have := hcnt i hi; simp [-List.getD_eq_getElem?_getD] at this; omega
+      have hsum := decAt_sum cs i (by omega)
+      have hperm : IsMultisetPermutation (decAt cs i) w := by
+        refine ⟨?_, ?_⟩
+        · intro x hx; rw [decAt_length]; exact hmem x (List.mem_cons_of_mem _ hx)
+        · intro j hj
+          rw [decAt_length] at hj
+          rw [decAt_getD]
+          have hj' := hcnt j hj
+          rw [List.count_cons] at hj'
+          by_cases hji : j = i
+          · subst hji; simp [-List.getD_eq_getElem?_getD]; omega
+          · have : ¬ i = j := fun h => hji h.symm
+            simp [this, -List.getD_eq_getElem?_getD] at hj'
+            simp [hji, hj', -List.getD_eq_getElem?_getD]
+      obtain ⟨idx', hidx', hr⟩ := ih (decAt cs i) w (by omega) hperm
+      rw [decAt_length] at hr
+      refine ⟨tsum (term cs) 0 i + idx', rank_lt cs i idx' hi (by omega) hidx', ?_⟩
+      simp only [constructWithCopies, pickNext_complete cs i idx' hi (by omega) hidx', hr]
+
 theorem constructWithCopies_range' (cs : List Nat) (idx : Nat) (h : idx < countRemaining cs) :
-    ∃ w, constructWithCopies cs.length cs.sum idx cs = .ok w ∧ IsMultisetPermutation cs w := by
-  sorry
+    ∃ w, constructWithCopies cs.length cs.sum idx cs = .ok w ∧ IsMultisetPermutation cs w :=
+  cwc_range cs.sum cs idx rfl (by rwa [countRemaining_eq_multi] at h)
 
 theorem constructWithCopies_inj' (cs : List Nat) (i₁ i₂ : Nat)
     (h₁ : i₁ < countRemaining cs) (h₂ : i₂ < countRemaining cs)
     (h : constructWithCopies cs.length cs.sum i₁ cs = constructWithCopies cs.length cs.sum i₂ cs) :
-    i₁ = i₂ := by
-  sorry
+    i₁ = i₂ :=
+  cwc_inj cs.sum cs i₁ i₂ rfl (by rwa [countRemaining_eq_multi] at h₁)
+    (by rwa [countRemaining_eq_multi] at h₂) h
 
 theorem constructWithCopies_surj' (cs : List Nat) (w : List Nat) (hw : IsMultisetPermutation cs w) :
     ∃ idx, idx < countRemaining cs ∧ constructWithCopies cs.length cs.sum idx cs = .ok w := by
-  sorry
+  rw [countRemaining_eq_multi]
+  exact cwc_surj cs.sum cs w rfl hw
 
 end SPModel.Comb
